@@ -118,6 +118,8 @@ type capture struct {
 	dir string
 }
 
+var nonClean int
+
 func prepare(s *ev.S) error {
 	slim := s.Tier != "thorough"
 	p, _ := extra(slim)
@@ -132,6 +134,12 @@ func prepare(s *ev.S) error {
 	}
 	_, err := cells.Prepare(s, cells.Options{Slim: slim, Extra: p, Recurse: recurse,
 		GenOptions: func(file string, o *gen.Options) {
+			// the recursive generations (not compiled) are given other spellings of the package
+			// prefix: the module descriptions must not depend on how the prefix is spelled
+			if strings.HasPrefix(file, "recurse:") {
+				nonClean++
+				o.PackagePrefix = []string{"cellsmod/gen/", "./cellsmod//gen", "cellsmod/./gen"}[nonClean%3]
+			}
 			o.Plugin = gen.CodeGenerator{ServiceGenerator: recorder{filepath.Join(reqDir, strings.NewReplacer("/", "_", ":", "_").Replace(file)+".json")}}
 		}})
 	s.Args["requests"] = reqDir
@@ -260,6 +268,20 @@ func run(w *ev.W) {
 	conv := &reflectval.Conv{P: p}
 	root := w.Args["cells_root"]
 	tes := cells.TypeExprs(slim)
+	// the generated code of a service file has to build: the helpers are part of what is judged here
+	if w.Shard == 0 {
+		var rep cells.BuildReport
+		json.Unmarshal([]byte(w.Args["cells_report"]), &rep)
+		for _, f := range ex.Files {
+			pk := strings.TrimSuffix(f.Path, ".thrift")
+			if e, bad := rep.CompileError[pk]; bad && !strings.HasPrefix(e, "imports ") {
+				w.Violation("generated-service-code-does-not-build", fmt.Sprintf("%s: the Go generated for this service file does not compile: %.400s", f.Path, e), map[string]string{"file": f.Path, "error": e})
+			}
+			if e, bad := rep.GenerateError[f.Path]; bad {
+				w.Violation("service-file-rejected", fmt.Sprintf("%s: the generator rejected a valid service file: %.400s", f.Path, e), map[string]string{"file": f.Path, "error": e})
+			}
+		}
+	}
 	for _, f := range ex.Files {
 		if !w.Own() {
 			continue
